@@ -428,8 +428,20 @@ func (broker *Broker) recover() (send []sts.Hashed, err error) {
 			nPoll,
 		))
 		var polled []sts.Polled
-		if polled, err = broker.Conf.Validator(pollNow); err != nil {
-			return
+		nErr = 0
+		for {
+			if broker.shouldStopNow() {
+				return
+			}
+			// Keep asking (like the recovery request above): giving up here
+			// would leave these files unsent until the next restart
+			if polled, err = broker.Conf.Validator(pollNow); err != nil {
+				broker.error("Recovery poll request failed:", err.Error())
+				nErr++
+				broker.applyErrorBackoff(nErr)
+				continue
+			}
+			break
 		}
 		broker.info("STARTUP: Processing server response ...")
 		for _, f := range polled {
